@@ -37,9 +37,9 @@ import (
 var fullEnd = func() gram.Alphabet { a := gram.Full; a.Name = "full+end"; a.End = true; return a }()
 
 func c06Specs(tier string) []spaceSpec {
-	max := 4
+	max := 5
 	if tier == "thorough" {
-		max = 5
+		max = 6
 	}
 	out := []spaceSpec{{sp: &gram.Space{Name: "full+end-1nt", Alpha: fullEnd, NNT: 1, Min: 2, Max: max}, maxLen: 3, alpha: ab}}
 	for _, s := range c04Specs(tier) {
